@@ -2,3 +2,4 @@ import Props.C01
 import Props.C05
 import Props.C08
 import Props.C09
+import Props.C18
